@@ -265,7 +265,13 @@ func suiteStream(e *vh.Env) {
 		// stream can stall because the failed attempt's body reader is still alive and takes the next chunk - the
 		// recorded finding C06:ack-corrupt:retry-overlaps-live-body-reader - and C05 does not quantify over faults.)
 		retried := false
-		dn := px.submit(id, "GET /s/"+id+" HTTP/1.1\r\nHost: backend.example\r\n\r\n")
+		// every fifth stream answers an HTTP/1.0 client: the response is then serialised without chunked framing
+		proto := "HTTP/1.1"
+		if i%5 == 2 {
+			proto = "HTTP/1.0"
+			e.Count("http/1.0-client")
+		}
+		dn := px.submit(id, "GET /s/"+id+" "+proto+"\r\nHost: backend.example\r\n\r\n")
 		select {
 		case <-dn:
 		case <-time.After(time.Duration(5+3*len(sizes)/10) * time.Second):
